@@ -1,4 +1,96 @@
 import Driver.HeapCommon
 import Driver.Loop
+import OdmlModel.Model.HeapExt
+open Lean Drv
 
-def main : IO Unit := Drv.runLoop DrvHeap.handle
+/-!
+C03 driver: the shared heap protocol (`run`, `uuid`: `DrvHeap.handle`, also used by the C04 and C06
+checks) plus `runx`: histories over the extended operation set of `Model/HeapExt.lean`
+(primitive operations, clone, merge, the link setter, clean), each extended operation with the
+oracle tables the harness observed on the implementation before it ran the operation.
+Trusted JSON glue, outside the proofs.
+-/
+namespace DrvC03
+open Heap
+
+def pairs (j : Json) (k : String) : Except String (List (Nat × Nat)) :=
+  match j.getObjVal? k with
+  | .ok (.arr a) => a.toList.mapM fun p => do
+      match p with
+      | .arr #[x, y] => pure ((← x.getNat?), (← y.getNat?))
+      | _ => throw s!"bad pair in {k}"
+  | _ => pure []
+
+def strs (j : Json) (k : String) : Except String (List String) :=
+  match j.getObjVal? k with
+  | .ok (.arr a) => a.toList.mapM fun s => s.getStr?
+  | _ => pure []
+
+/-- `base` = number of objects before the operation: fresh ids are listed in creation order. -/
+def decOracle (j : Json) (base : Nat) : Except String Oracle := do
+  let ty ← strs j "ty"
+  let secBad ← pairs j "sec_bad"
+  let propBad ← pairs j "prop_bad"
+  let eq ← pairs j "eq"
+  let relBad ← pairs j "rel_bad"
+  let fresh ← strs j "fresh"
+  pure { ty := fun i => ty.getD i "",
+         secOk := fun a b => !secBad.contains (a, b),
+         propOk := fun a b => !propBad.contains (a, b),
+         eq := fun a b => eq.contains (a, b),
+         relOk := fun a b => !relBad.contains (a, b),
+         ids := fun i => fresh.getD (i - base) "" }
+
+def decXOp (j : Json) : Except String XOp := do
+  let op ← getStr j "op"
+  match op with
+  | "clone" => pure (.clone (← getNat j "x") (← getBool j "children") (← getBool j "keep_id"))
+  | "merge" => pure (.merge (← getNat j "dest") (← getNat j "src"))
+  | "clean" => pure (.clean (← getNat j "x"))
+  | "set_link" =>
+    let v ← getStr j "val"
+    let lv ← match v with
+      | "none" => pure LinkVal.none
+      | "falsy" => pure LinkVal.falsy
+      | "path" => pure (LinkVal.path (← DrvHeap.optNat j "target"))
+      | _ => throw s!"bad link value {v}"
+    pure (.setLink (← getNat j "x") lv)
+  | _ => pure (.prim (← DrvHeap.decOp j))
+
+def xoutStr : XOut → Json
+  | .ok => jstr "ok"
+  | .raised e => jstr (DrvHeap.excStr e)
+  | .runtime => jstr "RuntimeError"
+  | .fuel => jstr "fuel"
+
+def snapshotX (s : X) : Json :=
+  jarr ((List.range s.h.size).map fun i =>
+    let n := s.h.node i
+    jobj [("kind", jstr (DrvHeap.kindStr n.kind)), ("name", jstr (if n.kind = .doc then "" else n.name)),
+          ("id", jstr n.id),
+          ("parent", match n.parent with | none => Json.null | some p => jnat p),
+          ("secs", jarr (n.secs.map jnat)), ("props", jarr (n.props.map jnat)),
+          ("merged", match (if n.kind = .sec then s.merged i else none) with
+                     | none => Json.null | some p => jnat p),
+          ("link", jbool (n.kind = .sec && s.link i))])
+
+def runTraceX (fuel : Nat) (ops : List Json) : Except String Json := do
+  let rec go (s : X) : List Json → Except String (List Json)
+    | [] => pure []
+    | j :: rest => do
+      let op ← decXOp j
+      let O ← decOracle j s.h.size
+      let r := stepX fuel s O op
+      let tl ← go r.1 rest
+      pure (jobj [("out", xoutStr r.2), ("snap", snapshotX r.1)] :: tl)
+  pure (jarr (← go X.empty ops))
+
+def handle (j : Json) : Except String Json := do
+  let op ← getStr j "op"
+  match op with
+  | "runx" => runTraceX (← getNat j "fuel") (← getArr j "ops").toList
+  | _ => DrvHeap.handle j
+
+end DrvC03
+
+def main : IO Unit := Drv.runLoop DrvC03.handle
